@@ -7,7 +7,7 @@ the recorded classes), hence like the tree engine.
 namespace Rivaas.CompilerL
 open Rivaas.Route Rivaas.Radix Rivaas.Compiler Rivaas.Match Rivaas.MatchL Rivaas.RadixL Rivaas.C01
 
-theorem fastMatch_over (eo : Bool) (sat : Nat → Bytes → Bool) (st : Option Bytes) (name : Bytes) (c : Option Nat)
+theorem fastMatch_over (eo : Bool) (sat : Nat → Bytes → Bool) (st : Option Bytes) (name : Bytes) (c : List Nat)
     (path : Bytes) (over : SMap) : (fastMatch eo sat st name c path over).2.over = over := by
   unfold fastMatch
   split
@@ -101,7 +101,7 @@ theorem matchDynamic_some (sat : Nat → Bytes → Bool) (rc : RC) (m path : Byt
   · exact scan_some sat m _ _ _ _ _ h
 
 
-theorem C_isStatic (r : Route) (hn : NormalPat r.text r.pat) (ht : trimSpace r.text = r.text) :
+theorem C_isStatic (r : Route) (hn : NormalPat r.text r.pat) :
     ((C r).isStatic = false ∧ (C r).hasWildcard = false) →
       r.pat ≠ [] ∧ endsWild r.pat = false ∧ isStaticPat r.pat = false := by
   intro ⟨hs, hw⟩
@@ -114,12 +114,12 @@ theorem C_isStatic (r : Route) (hn : NormalPat r.text r.pat) (ht : trimSpace r.t
     cases hh : endsWild r.pat with
     | false => rfl
     | true =>
-      have := (compileRoute_wild r hn ht hpe hh).2
+      have := (compileRoute_wild r hn hpe hh).2
       unfold C at hw
       rw [this] at hw; simp at hw
   refine ⟨hpe, hwild, ?_⟩
   unfold C at hs
-  rw [compileRoute_dyn r hn ht hpe hwild] at hs
+  rw [compileRoute_dyn r hn hpe hwild] at hs
   simp only at hs
   have hpok := normal_patOK _ _ hn
   unfold patOK at hpok
@@ -136,7 +136,7 @@ theorem stage2_eq (hash : Bytes → Nat) (sat : Nat → Bytes → Bool) (noRoute
     (hstd : ∀ g ∈ script, g.method ∈ stdMethods) (req : Req) (hp : req.path.head? = some '/')
     (hS : dShadow1 R req.method (cutAny req.path) = false) (hNm : dNames1 R req.method (cutAny req.path) = false)
     (hC : dCfall1 sat R req.method (cutAny req.path) = false)
-    (hO : dOrder1 sat R req.method (cutAny req.path) = false) (hM : dMulti1 R req.method (cutAny req.path) = false)
+    (hO : dOrder1 sat R req.method (cutAny req.path) = false)
     (cr : CRoute) (e : Extract)
     (hmd : (rcBuild hash script).matchDynamic sat req.method req.path = some (cr, e)) :
     servedDynamic cr e req = serve sat (build noRoute script) req := by
@@ -144,13 +144,13 @@ theorem stage2_eq (hash : Bytes → Nat) (sat : Nat → Bytes → Bool) (noRoute
   obtain ⟨hinv, _⟩ := rcBuild_dynamic hash script R hR hg
   obtain ⟨R1, r, R2, hRs, hcr, hst, hwc, hlast⟩ := hinv cr hcd
   have hrR : r ∈ R := by rw [hRs]; simp
-  obtain ⟨hn, ht⟩ := hg r hrR
-  obtain ⟨hmeth, hpatt, hrid⟩ := C_meta r hn ht
+  have hn := hg r hrR
+  obtain ⟨hmeth, hpatt, hrid⟩ := C_meta r hn
   rw [hcr] at hst hwc hcm hme
-  obtain ⟨hpe, hwild, hns⟩ := C_isStatic r hn ht ⟨hst, hwc⟩
+  obtain ⟨hpe, hwild, hns⟩ := C_isStatic r hn ⟨hst, hwc⟩
   rw [hmeth] at hcm
   -- the oracle match behind the compiled match
-  obtain ⟨b, hb, hcf, hctx⟩ := matchAndExtract_sound sat r hn ht hpe hwild hns req.path hp [] e hme
+  obtain ⟨b, hb, hcf, hctx⟩ := matchAndExtract_sound sat r hn hpe hwild hns req.path hp [] e hme
   have hNR := lemma_normalR R hN
   have hkeysEq := matchPat_keys _ _ _ _ hb
   have hkeys : distinct (b.map (·.1)) = true := by rw [hkeysEq]; exact hn.dist
@@ -159,11 +159,8 @@ theorem stage2_eq (hash : Bytes → Nat) (sat : Nat → Bytes → Bool) (noRoute
     unfold endsWild at hwild
     simpa using hwild
   have hmatch : (matchPat (cutAny req.path).trail r.pat (cutAny req.path).segs).isSome = true := by rw [hb]; rfl
-  have hnodup : dupName r.cons = false := by
-    have := Bool.eq_false_iff.mpr ((List.any_eq_false.mp hM) r hrR)
-    simpa [hcm, hcdyn, hmatch] using this
   have hcons : consOK sat r.cons b = true :=
-    consOK_of_first sat r.cons b (by intro c hc; rw [hkeysEq]; exact (hNR r hrR).2 c hc) hkeys hnodup hcf
+    consOK_of_first sat r.cons b (by intro c hc; rw [hkeysEq]; exact (hNR r hrR).2 c hc) hkeys hcf
   have hrm : routeMatch sat r (cutAny req.path) = some b := by simp [routeMatch, hb, hcons]
   have hrc : r ∈ cands sat R req.method (cutAny req.path) := by
     simp only [cands, List.mem_filter, decide_eq_true_eq]
